@@ -27,6 +27,8 @@ MODE = "diff"
 BUDGET = {"quick": 400, "thorough": 6000}
 ZERO = 1 << 60
 FIXED = 6
+# "stale_singleton_while_zero_invalid" is deliberately NOT a C11 kind: it is behaviour of the unchanged tree
+# (finding F1 in docs/notes-reduce.md) that the lead decides on (fix or known_findings.json).
 PROP_KINDS = {"C11": {"wrong_value", "missing_eval", "no_tick", "sink_mismatch", "leaf_count", "combiner_count",
                       "zero_operand", "stale_operand", "too_many_evals", "error_line", "spurious_tick"}}
 
@@ -207,6 +209,21 @@ def gen(rng, tier, prop):
                 for k in rng.sample(live_keys, min(len(live_keys), rng.randint(1, 3))):
                     sc.set(k)
         sc.end(c, touch=(coll == 0 and rng.random() < 0.04))
+    if has_zero and coll != 2 and rng.random() < 0.45:
+        # a LIVE zero with its own tick script: first tick in cycle 0, later (after the collection, with two or
+        # more elements live in between), or never; re-ticks with a new value (2^60 / 2^61 alternate)
+        r = rng.random()
+        first = 0 if r < 0.3 else (None if r > 0.88 else rng.randint(1, max(1, n - 1)))
+        zl, k = [], 0
+        if first is not None:
+            c = first
+            while c < n:
+                zl.append([5, c, ZERO << (k % 2)])
+                k += 1
+                if rng.random() < 0.45:
+                    break
+                c += rng.randint(1, 4)
+        return [[1, coll, comb, 2, 0, n]] + sc.lines + zl
     return [[1, coll, comb, has_zero, ZERO if has_zero else 0, n]] + sc.lines
 
 
@@ -269,7 +286,25 @@ def parse_case(case):
     if hdr is None:
         hdr = [1, 0, 0, 0, 0, 0]
     coll = 0 if hdr[1] == 0 else (1 if hdr[1] == 1 else 2)
-    return {"coll": coll, "comb": hdr[2] if hdr[2] in (0, 1) else 2, "hz": hdr[3] != 0, "zero": hdr[4], "n": hdr[5]}
+    return {"coll": coll, "comb": hdr[2] if hdr[2] in (0, 1) else 2, "hz": hdr[3] != 0, "zero": hdr[4], "n": hdr[5],
+            "live_zero": hdr[3] == 2}
+
+
+def zero_states(case, h):
+    """Per cycle: (current value of the zero or None, did it tick).  A scalar zero is a constant that ticks in
+    cycle 0; a live zero (header field 2) follows its own script of lines `5 cycle value`."""
+    out, cur = [], None
+    for c in range(max(0, min(h["n"], 200))):
+        if not h["hz"]:
+            out.append((None, False))
+        elif not h["live_zero"]:
+            out.append((h["zero"], c == 0))
+        else:
+            tick = [l[2] for l in case if l[0] == 5 and len(l) >= 3 and l[1] == c]
+            if tick:
+                cur = tick[-1]
+            out.append((cur, bool(tick)))
+    return out
 
 
 def script_states(case):
@@ -305,12 +340,15 @@ def script_states(case):
     return h, out
 
 
-def expected(h, live):
+def expected(h, live, zv):
+    """zv: the zero's current value, None while a declared zero has not ticked (or no zero is declared)."""
     vals = list(live.values())
     if not vals:
-        return (1, h["zero"]) if h["hz"] else (0, 0)
+        return (1, zv) if zv is not None else (0, 0)
     if len(vals) == 1:
-        return (1, vals[0] + h["zero"]) if h["hz"] else (1, vals[0])
+        if not h["hz"]:
+            return (1, vals[0])
+        return (1, vals[0] + zv) if zv is not None else (0, 0)   # f(value, zero) needs the zero
     return (1, sum(vals))
 
 
@@ -327,7 +365,7 @@ def oracle(prop, case, out):
     fails = []
     h, states = script_states(case)
     if any(l and l[0] == 39 for l in out):
-        bad = h["n"] < 0 or h["n"] > 200 or (h["coll"] != 0 and any(
+        bad = h["n"] < 0 or h["n"] > 200 or (h["live_zero"] and h["coll"] == 2) or (h["coll"] != 0 and any(
             l[0] == 2 and len(l) >= 4 and not (0 <= l[2] <= (200 if h["coll"] == 1 else FIXED - 1)) for l in case))
         if not bad:
             fails.append(("error_line", str([l for l in out if l[0] == 39])))
@@ -340,14 +378,18 @@ def oracle(prop, case, out):
             by_t.setdefault(l[1], []).append(l)
     cur = (0, 0)          # the result as last published
     evaluated_once = False
+    zs = zero_states(case, h)
+    zmask = (ZERO | (ZERO << 1)) if h["live_zero"] else h["zero"]
+    prev_exp = (0, 0)
     for c, (live, event, changed) in enumerate(states):
         t = c + 1
         ls = by_t.get(t, [])
         e32 = [l for l in ls if l[0] == 32]
         e31 = [l for l in ls if l[0] == 31]
         e30 = [l for l in ls if l[0] == 30]
-        exp = expected(h, live)
-        zero_event = h["hz"] and c == 0
+        zv, zero_event = zs[c]
+        zc = zv if zv is not None else 0
+        exp = expected(h, live, zv)
         if _is_lifted_tsl(h):
             if e31:
                 cur = (e31[-1][2], e31[-1][3])
@@ -380,20 +422,27 @@ def oracle(prop, case, out):
                 fails.append(("too_many_evals", "t=%d %d combiner runs for %d live" % (t, len(e30), len(live))))
             for l in e30:
                 lhs, rhs = l[2], l[3]
-                if len(live) >= 2 and h["hz"] and (((lhs | rhs) & h["zero"]) if pow2 else (lhs >= h["zero"] or rhs >= h["zero"])):
+                if len(live) >= 2 and h["hz"] and (((lhs | rhs) & zmask) if pow2 else (lhs >= ZERO or rhs >= ZERO)):
                     fails.append(("zero_operand", "t=%d zero is an operand with %d live: %d %d" % (t, len(live), lhs, rhs)))
-                allowed = mask | (h["zero"] if (h["hz"] and len(live) == 1) else 0)
+                allowed = mask | (zc if (h["hz"] and len(live) == 1) else 0)
                 if not pow2:
-                    if lhs <= 0 or rhs <= 0 or lhs + rhs > mask + (h["zero"] if (h["hz"] and len(live) == 1) else 0):
+                    if lhs <= 0 or rhs <= 0 or lhs + rhs > mask + (zc if (h["hz"] and len(live) == 1) else 0):
                         fails.append(("stale_operand", "t=%d operands %d %d exceed the sum of live values %d" % (t, lhs, rhs, mask)))
                 elif (lhs & rhs) or ((lhs | rhs) & ~allowed) or lhs == 0 or rhs == 0:
                     fails.append(("stale_operand", "t=%d operands %d %d are not disjoint sums of live values %d" % (t, lhs, rhs, mask)))
         # the statement itself: the current result is the fold over exactly the live values
         started = evaluated_once or _is_lifted_tsl(h)
-        if cur != exp and (started or exp[0]):
-            fails.append(("wrong_value", "t=%d result %s expected %s live=%s" % (t, cur, exp, sorted(live.items()))))
-        if changed and not _is_lifted_tsl(h) and not e31 and e32:
-            fails.append(("no_tick", "t=%d live values changed but the result did not tick" % t))
+        undefined = h["hz"] and len(live) == 1 and zv is None      # f(value, zero) with a zero that has no value yet
+        if undefined and cur != (0, 0):
+            # observed on the unchanged tree: shrinking from >= 2 live to a singleton while the declared zero has
+            # no value leaves the root combiner's OLD output published (a fold that still contains removed
+            # elements).  Recorded under its own kind (not a C11 kind here; see docs/notes-reduce.md, finding F1).
+            fails.append(("stale_singleton_while_zero_invalid", "t=%d result %s published for singleton %s, zero has no value" % (t, cur, sorted(live.items()))))
+        elif cur != exp and (started or exp[0]):
+            fails.append(("wrong_value", "t=%d result %s expected %s live=%s zero=%s" % (t, cur, exp, sorted(live.items()), zv)))
+        if exp != prev_exp and not undefined and not _is_lifted_tsl(h) and not e31 and e32:
+            fails.append(("no_tick", "t=%d the fold changed (%s -> %s) but the result did not tick" % (t, prev_exp, exp)))
+        prev_exp = exp
     return fails
 
 
@@ -415,6 +464,12 @@ def stats(case, out):
     for b in (2, 3, 5, 9, 17, 33, 65, 129):
         if mx >= b:
             st["reached_%d_live" % b] = 1
+    if h["live_zero"]:
+        zs = zero_states(case, h)
+        st["live_zero"] = 1
+        st["live_zero_late_with_2_live"] = int(any(zs[i][0] is None and sizes[i] >= 2 for i in range(len(sizes))))
+        st["live_zero_reticks"] = max(0, sum(1 for z in zs if z[1]) - 1)
+        st["live_zero_never"] = int(all(z[0] is None for z in zs))
     st["emptied_and_regrew"] = int(any(sizes[i] == 0 and any(x > 0 for x in sizes[:i]) and any(x > 0 for x in sizes[i:]) for i in range(len(sizes))))
     st["singleton_with_zero_cycles"] = sum(1 for s in sizes if s == 1) if h["hz"] else 0
     st["multi_event_cycles"] = sum(1 for c in range(len(states)) if sum(1 for l in case if l[0] in (2, 3) and l[1] == c) >= 2)
